@@ -81,11 +81,15 @@ def run(chk, replay=None):
                 "parameters, calls the era's UtxoValidateValueNotConservedUtxo at three scales (x1, x10^6, ~2^62), each with a different concrete identity of the model's two assets (names differing by a trailing 0x00, \"\" vs 0x00, prefix-related, 32 bytes differing in the last one, random, same name under two policy ids), plus "
                 "once after a CBOR encode/decode round trip, and compares accept/reject with the TLC row; it also "
                 "confirms the rule is in the era's UtxoValidationRules. The phase-2 flag is a coordinate of the case "
-                "space (Alonzo..Dijkstra): one base transaction in FlagEvery (quick 6, thorough every one) is emitted a "
+                "space (Alonzo..Dijkstra): one base transaction in FlagEvery (quick 8, thorough every one) is emitted a "
                 "second time, in all its variants, with is_valid = false; the reference verdict does not read the flag "
                 "(invariants FlagIrrelevant, FlagTwin), the driver builds the flagged transaction and expects the "
                 "unflagged twin's answer (keys end in :p2invalid; round trip where the era's encoding carries the "
-                "flag, i.e. not Dijkstra, whose flag comes from the block's list of invalid transactions). A case is one (abstract transaction, scale, "
+                "flag, i.e. not Dijkstra, whose flag comes from the block's list of invalid transactions). The ledger "
+                "state's pool table is a coordinate too: the already registered pool has, in half of the base "
+                "transactions, a retirement announced (PoolCurrentState returns the registration and an epoch); the "
+                "reference charges a pool deposit iff the named pool is not in the registered set, whatever its "
+                "retirement status (invariant PoolHistory; keys of those cases carry :poolold=retiring). A case is one (abstract transaction, scale, "
                 "policy class); non-trivial when it has a certificate, asset, withdrawal, donation or proposal")
     chk.assumptions = [
         "a stake / DRep deregistration refunds the current keyDeposit / drepDeposit parameter (mock ledger state "
@@ -151,6 +155,9 @@ def run(chk, replay=None):
     eras = sorted({x["era"] for x in rows})
     chk.extra["c27_cases_per_era"] = {e: sum(1 for x in rows if x["era"] == e) for e in eras}
     chk.extra["c27_reference_accepts"] = sum(1 for x in rows if x["accept"])
+    chk.extra["c27_cases_reregistering_a_retiring_pool_per_era"] = {
+        e: sum(1 for x in rows if x["era"] == e and "poolreg_old" in x["certs"]
+               and x.get("pools", {}).get("old") == "retiring") for e in eras}
     chk.extra["c27_flagged_is_valid_false_cases_per_era"] = {
         e: sum(1 for x in rows if x["era"] == e and x.get("p2")) for e in eras if any(
             x["era"] == e and x.get("p2") for x in rows)}
